@@ -13,6 +13,7 @@ pub mod c09;
 pub mod c10;
 pub mod c11;
 pub mod c39;
+pub mod c40;
 pub mod c41;
 pub mod c12;
 pub mod c13;
@@ -82,6 +83,7 @@ pub fn all() -> Vec<CheckDef> {
         CheckDef { id: "C31", shards: one, run: c29::run_c31, replay: Some(c29::replay_c31) },
         CheckDef { id: "C35", shards: one, run: c35::run, replay: Some(c35::replay) },
         CheckDef { id: "C38", shards: one, run: c38::run, replay: Some(c38::replay) },
+        CheckDef { id: "C40", shards: one, run: c40::run, replay: Some(c40::replay) },
         CheckDef { id: "C41", shards: one, run: c41::run, replay: Some(c41::replay) },
         CheckDef { id: "C27", shards: one, run: c27::run, replay: Some(c27::replay) },
         CheckDef { id: "C28", shards: one, run: c28::run, replay: Some(c28::replay) },
